@@ -486,6 +486,13 @@ def _values_and_names_in_c(ctx, rep, tier):
             if isinstance(n, ast.Constant) and isinstance(n.value, str):
                 wl |= set(n.value.split())
     need = {"for", "int", "struct", "while", "bool", "true", "false", "class", "new", "delete", "namespace", "template", "this", "typename", "operator", "_Bool", "restrict", "inline"}
+    # names the generated code defines as macros around emitted expressions
+    macros = set()
+    for q2 in ("CodegenCtx._generate_end_implementation", "CodegenCtx._generate_feed_implementation"):
+        for n in ast.walk(model.func(q2)):
+            if isinstance(n, ast.Constant) and isinstance(n.value, str):
+                macros |= set(re.findall(r"#define (\w+)", n.value))
+    need |= macros
     rep.check(need <= wl, "C11.o", "C_RESERVED_WORDS", f"reserved-word table covers C and C++ keywords and the stdbool macros ({len(wl)} words)", f"reserved words missing from the table: {sorted(need - wl)}")
     rep.check(model.has(q, "if out_obj.name in C_RESERVED_WORDS:\n    raise IllegalParseTree($$m, out.children[1])"), "C11.o", q, "an output named like a reserved word is refused",
               "`out int for;` / `out int class;` are accepted: the generated struct member is not valid C (or the header not valid C++)")
